@@ -432,7 +432,7 @@ def vg_reports(text):
                 j += 1
             fn = None
             for f, path in frames:
-                if "verif-build" in path and any(d in path for d in vflib.LIBDIRS):
+                if ("verif-build" in path or vflib.SCRATCH in path) and any(d in path for d in vflib.LIBDIRS):
                     fn = f
                     break
             if fn is None:
